@@ -36,6 +36,7 @@ _run = run      # vlib.common.run (this module's own `run` is the check's entry 
 GEN_REL = "LlgoVerif/Gen/C11Atomics.lean"
 LAT = ('"github.com/goplus/llgo/runtime/internal/lib/sync/atomic"', '"%s/latomic"' % native.VN, "atomic")
 SEMA_SRC = "runtime/internal/lib/runtime/sema_llgo.go"
+VALUE_SRC = "runtime/internal/lib/sync/atomic/value.go"
 
 MAX_UNCLASSIFIED = 8      # replay files written per run for failing inputs of a class that is not a known finding
 K_TICKET = "notifylist:wait-returns-with-notify-below-ticket"
@@ -66,7 +67,7 @@ def setup_ir_shims(ctx):
     return {"LLVM_CONFIG": p, "VERIF_C11_IRDIR": ird}, ird
 
 
-def e2e_expected(N, K):
+def e2e_expected(N, K, S):
     nk = N * K
     bits = 0xffffffff if N >= 32 else (1 << N) - 1
     T = nk * (nk + 1) // 2
@@ -80,7 +81,7 @@ def e2e_expected(N, K):
         "store-load.pointer-roundtrip": 1, "go.arg-value-at-go": 1, "go.args-in-order": 123, "go.args-before-next-stmt": 4,
         "go.func-value-at-go": 1, "go.value-receiver-at-go": 1, "go.pointer-shared": 6, "go.iface-receiver-at-go": 7,
         "go.closure-shares-variable": 11, "go.not-exactly-once": 0, "go.nested-sum": 6 * N, "value.inconsistent-load": 0,
-        "value.last": K, "value.swap-old": K, "typed.int64": 2 * nk, "typed.uint32": nk, "typed.bool": 1, "end": 1,
+        "value.last": K, "value.swap-old": K, "value.first-store.rounds": S, "value.first-store.incomplete": 0, "typed.int64": 2 * nk, "typed.uint32": nk, "typed.bool": 1, "end": 1,
     }
 
 
@@ -154,12 +155,13 @@ def build_native(ctx):
         native.IMPORT_MAP.insert(0, LAT)      # sema_llgo.go imports llgo's intrinsic-only sync/atomic: yielding stand-in
     mains = {"main.go": open(os.path.join(H, "main.go.txt")).read(),
              "lrt/zz_access.go": open(os.path.join(H, "lrt_access.go.txt")).read(),
+             "lval/zz_access.go": open(os.path.join(H, "lval_access.go.txt")).read(),
              "latomic/atomic.go": open(os.path.join(H, "standins", "latomic", "atomic.go")).read()}
-    return native.make_native(ctx, [], {}, mains, other={SEMA_SRC: ("lrt", "lrt")}, name="native-c11")
+    return native.make_native(ctx, [], {}, mains, other={SEMA_SRC: ("lrt", "lrt"), VALUE_SRC: ("lval", "lval")}, name="native-c11")
 
 
 class Step:
-    __slots__ = ("act", "tid", "kind", "pick", "events", "sems", "lists", "threads")
+    __slots__ = ("act", "tid", "kind", "pick", "events", "sems", "lists", "threads", "vals")
 
 
 def parse_trace(tr):
@@ -178,7 +180,9 @@ def parse_trace(tr):
                 s.pick = int(p)
             s.tid = int(a)
         s.events = [] if ev == "-" else ev.split(",")
-        S, L, T = st.split(":")
+        parts_ = st.split(":")
+        S, L, T = parts_[0], parts_[1], parts_[2]
+        s.vals = parts_[3][1:].split(",") if len(parts_) > 3 else []
         s.sems = [tuple(int(x) for x in f.split("/")) for f in S[1:].split(",")] if len(S) > 1 else []
         s.lists = [tuple(int(x) for x in f.split("/")) for f in L[1:].split(",")] if len(L) > 1 else []
         s.threads = []
@@ -235,6 +239,14 @@ def judge(sems0, progs, steps, end):
     tickets = {}                      # thread -> (list, ticket, step drawn)
     rets = []                         # (list, ticket, notify, thread, drawn step, return step)
     slept_at = {}                     # thread -> (step, parked before, val after) of its last transition into 'c'
+    def effect(k, tid, kinds):
+        """the step at which the access that decided / performed the event reported at step k was executed: the thread's most
+        recent step entered while parked before an access of one of `kinds` (coarse mode: k itself; fine mode: earlier)"""
+        j = k
+        while j > 1 and not (steps[j].tid == tid and steps[j].kind == "s" and steps[j - 1].threads[tid][1] in kinds):
+            j -= 1
+        return j if j > 1 or (steps[1].tid == tid and steps[0].threads[tid][1] in kinds) else k
+
     for k in range(1, len(steps)):
         st, pv = steps[k], steps[k - 1]
         tid = st.tid
@@ -248,26 +260,31 @@ def judge(sems0, progs, steps, end):
                 if c == "A":
                     s_ = int(rest)
                     acq[s_] += 1
-                    if pv.sems[s_][0] < 1 or st.sems[s_][0] != pv.sems[s_][0] - 1:
-                        fails.append((None, "semaAcquire returned without taking a permit from a positive count",
-                                      {"step": k, "sem": s_, "count_before": pv.sems[s_][0], "count_after": st.sems[s_][0]}))
+                    # the permit is taken by the thread's last CAS: the most recent step it entered parked before a "cas"
+                    kc = k
+                    while kc > 1 and not (steps[kc].tid == tid and steps[kc].kind == "s" and steps[kc - 1].threads[tid][1] == "cas"):
+                        kc -= 1
+                    b_, a_ = steps[kc - 1].sems[s_][0], steps[kc].sems[s_][0]
+                    if b_ < 1 or a_ != b_ - 1 or b_ >= 1 << 31:
+                        fails.append((None, "semaAcquire returned without taking a permit from a positive count (count %d -> %d at its last CAS, step %d)" %
+                                      (b_, a_, kc), {"step": k, "sem": s_, "count_before": b_, "count_after": a_}))
                 elif c == "R":
                     rel_done[int(rest)] += 1
                 elif c == "K":
                     l_, t_ = rest.split(".")
-                    tickets[tid] = (int(l_), int(t_), k)
+                    tickets[tid] = (int(l_), int(t_), effect(k, tid, ("add",)))
                 elif c == "W":
                     l_, t_, n_ = (int(x) for x in rest.split("."))
                     drawn = tickets.get(tid, (l_, t_, 0))[2]
-                    rets.append((l_, t_, n_, tid, drawn, k))
+                    rets.append((l_, t_, n_, tid, drawn, effect(k, tid, ("ld",))))
                 elif c in "OB":
-                    notif.append((int(rest), c, k, tid, began[tid]))
+                    notif.append((int(rest), c, effect(k, tid, ("st",) if c == "B" else ("add", "ld")), tid, began[tid]))
             if st.threads[tid][2] != before[2]:
                 began[tid] = None
             if st.threads[tid][0] == "c" and before[0] != "c":
                 s_ = op[1] if op and op[0] == "A" else None
                 slept_at[tid] = (k, before[1], st.sems[s_][0] if s_ is not None else None)
-                if s_ is not None and before[1] == "cas" and st.sems[s_][0] > 0:
+                if s_ is not None and before[1] in ("cas", "cas+") and st.sems[s_][0] > 0:
                     cas_sleeps.append((tid, k, st.sems[s_][0]))
         # permits conserved: count + completed acquires - initial lies between the completed releases and those plus the
         # releases in progress (the Add of a release in progress may or may not have happened)
@@ -275,7 +292,10 @@ def judge(sems0, progs, steps, end):
             inprog = sum(1 for t in range(nthreads)
                          if (cur_op(progs, t, st.threads[t][2]) or ("", -1)) == ("R", s_))
             x = st.sems[s_][0] + acq[s_] - sems0[s_]
-            if not (rel_done[s_] <= x <= rel_done[s_] + inprog):
+            # fine mode only: a thread parked right AFTER its CAS may already hold a permit it has not reported yet
+            pend = sum(1 for t in range(nthreads) if st.threads[t][1] == "cas+"
+                       and (cur_op(progs, t, st.threads[t][2]) or ("", -1)) == ("A", s_))
+            if not (rel_done[s_] <= x + pend and x <= rel_done[s_] + inprog):
                 fails.append((None, "permits not conserved: count + completed acquires - initial = %d, releases completed %d, in progress %d" %
                               (x, rel_done[s_], inprog), {"step": k, "sem": s_}))
                 break
@@ -318,7 +338,7 @@ def judge(sems0, progs, steps, end):
                 fails.append((key, "thread %d sleeps in semaAcquire with count %d and no thread left to wake it (it went to sleep at step %s "
                               "right after its %s, count %s then); threads that went to sleep right after a FAILED CAS with a positive count "
                               "in this run (thread, step, count): %s" %
-                              (tid, last.sems[op[1]][0], k, {"cas": "failed CAS", "ld": "load"}.get(parked_before, parked_before), val_after,
+                              (tid, last.sems[op[1]][0], k, {"cas": "failed CAS", "cas+": "failed CAS", "ld": "load", "ld+": "load"}.get(parked_before, parked_before), val_after,
                                cas_sleeps), {"thread": tid, "sem": op[1], "count": last.sems[op[1]][0], "cas_sleeps": cas_sleeps}))
             if op and op[0] == "W" and tid in tickets and tickets[tid][0] == op[1]:
                 l_, t_, drawn = tickets[tid]
@@ -328,6 +348,99 @@ def judge(sems0, progs, steps, end):
                                   (tid, t_, last.lists[l_][1], " and a NotifyAll began after its ticket was drawn" if covered else ""),
                                   {"thread": tid, "list": l_, "ticket": t_}))
     return fails
+
+
+def value_ops(progs):
+    """[[(kind, idx, a, b)]] of a program string that may contain atomic.Value operations"""
+    out = []
+    for th in progs.split(";"):
+        ops = []
+        if th not in ("", "-"):
+            for o in th.split("."):
+                f = o.split(":")
+                ops.append((f[0][0], int(f[0][1:]), f[1] if len(f) > 1 else None, f[2] if len(f) > 2 else None))
+        out.append(ops)
+    return out
+
+
+def judge_value(progs, steps, end):
+    """atomic.Value, judged on the REAL trace: a Load / the old value of a Swap is nil or a value that some call of the
+    programs stored (never a type word with somebody else's or no data word); after a Store/Swap/successful
+    CompareAndSwap returned, a Load that starts later is not nil; the stack never panics except for inconsistent types."""
+    fails = []
+    pp = value_ops(progs)
+    offered = {}
+    for th in pp:
+        for (k, i, a, b) in th:
+            v = a if k in "VX" else b if k == "Q" else None
+            if v:
+                offered.setdefault(i, set()).add(v)
+    types = {i: set(v[0] for v in vs) for i, vs in offered.items()}
+    stored_at = {}                 # value index -> first step at which a storing call had returned
+    began = [None] * len(pp)
+    for k in range(1, len(steps)):
+        st, pv = steps[k], steps[k - 1]
+        tid = st.tid
+        if began[tid] is None:
+            began[tid] = k
+        done_before = pv.threads[tid][2]
+        for j, ev in enumerate(st.events):
+            op = pp[tid][done_before + j] if done_before + j < len(pp[tid]) else None
+            if ev[0] == "!":
+                # a panic is legitimate only for an inconsistently typed value (two types offered to this Value)
+                i = int(ev[2:])
+                if len(types.get(i, ())) < 2 and not (op and op[0] == "Q" and op[2] != "n" and op[2][0] != op[3][0]):
+                    fails.append((None, "atomic.Value call %s panicked although all values have one type" % ev, {"step": k}))
+                continue
+            name, _, res = ev.partition("=")
+            i = int(name[1:])
+            if name[0] in "GX" and res != "n" and res not in offered.get(i, set()):
+                fails.append((None, "atomic.Value %s returned %s at step %d: nobody stored that value (a type word next to a data word "
+                              "that does not belong to it); values offered: %s" %
+                              ("Load" if name[0] == "G" else "Swap", res, k, sorted(offered.get(i, set()))), {"step": k, "result": res}))
+            if name[0] == "G" and res == "n" and j == 0 and i in stored_at and began[tid] is not None and stored_at[i] < began[tid]:
+                fails.append((None, "atomic.Value Load returned nil at step %d although a storing call had returned at step %d, before the Load started"
+                              % (k, stored_at[i]), {"step": k}))
+            if name[0] in "VX" or (name[0] == "Q" and res == "1"):
+                stored_at.setdefault(i, k)
+        if st.threads[tid][2] != done_before:
+            began[tid] = None
+    if end.startswith("panic"):
+        fails.append((None, "the atomic.Value stack panicked: " + end, {}))
+    return fails
+
+
+def gen_value_progs(rng):
+    nth = rng.choice([2, 2, 3, 3, 4])
+    two_types = rng.random() < 0.2
+    def val():
+        return ("b" if two_types and rng.random() < 0.4 else "a") + str(rng.randint(1, 9))
+    progs = []
+    for t in range(nth):
+        ops = []
+        for _ in range(rng.choice([1, 1, 2, 3])):
+            k = rng.choice("VVGGGXQ") if t else rng.choice("VVXQ")
+            if k == "V" or k == "X":
+                ops.append("%s0:%s" % (k, val()))
+            elif k == "G":
+                ops.append("G0")
+            else:
+                n = val()
+                o = rng.choice(["n", n[0] + str(rng.randint(1, 9))]) if rng.random() < 0.9 else val()
+                ops.append("Q0:%s:%s" % (o, n))
+        progs.append(".".join(ops))
+    return ";".join(progs)
+
+
+VALUE_DFS = [  # (programs, max runs, max steps): one or two Stores against one or two Loads, Swap, CompareAndSwap
+    ("V0:a1;G0", 100, 16), ("V0:a1;G0.G0", 200, 16), ("V0:a1;G0;G0", 3000, 16), ("V0:a1.V0:a2;G0.G0", 6000, 18),
+    ("V0:a1;V0:a2;G0", 8000, 14), ("V0:a1;V0:a2;G0.G0", 8000, 14), ("V0:a1;V0:b2;G0", 6000, 14), ("V0:a1;X0:a2;G0", 6000, 14),
+    ("Q0:n:a1;V0:a2;G0", 6000, 14), ("V0:a1.Q0:a1:a3;G0.Q0:a3:a4", 5000, 20), ("X0:a1;X0:a2;G0.G0", 6000, 14),
+]
+FINE_DFS = [  # (sems, programs, max runs, max steps): FINE mode (scheduling point also after every atomic access), judged only
+    ("0", "A0;R0", 20000, 40), ("1", "A0;A0;R0", 12000, 50), ("0", "A0;A0;R0", 12000, 50), ("0", "A0;R0.R0", 12000, 50),
+    ("0", "W0;O0", 6000, 40), ("0", "W0;B0", 6000, 40),
+]
 
 
 def strip_idx(progs):
@@ -473,7 +586,7 @@ def run(ctx, args):
     # ---- (3b) the runs: corpus, exhaustive small configurations, random programs x random schedules
     runs = []      # (origin, sems, nlists, progs, raw harness answer)
     rp = json.load(open(args.replay))["replay"] if args.replay else None
-    if rp is not None and "schedule" in rp:
+    if rp is not None and "schedule" in rp and "vprogs" not in rp and "fine" not in rp:
         o, _, _ = real(["sched %s %d %s %s" % (rp["sems"], rp["nlists"], rp["progs"], rp["schedule"])])
         runs.append(("replay", rp["sems"], rp["nlists"], rp["progs"], o[0]))
     elif rp is not None:
@@ -511,6 +624,77 @@ def run(ctx, args):
         for (sems, nadr, progs), a in zip(metas, o):
             runs.append(("random", sems, nadr, progs, a))
 
+    # ---- (3c) atomic.Value (verbatim value.go) and FINE-mode semaphore runs
+    vruns, fruns = [], []      # (origin, progs, raw) / (origin, sems, progs, raw)
+    vstats = {"runs": 0, "steps": 0, "dfs_configs": 0, "dfs_complete": 0, "random_runs": 0, "spec_failures": 0, "loads_nil": 0,
+              "loads_value": 0, "panics_inconsistent_type": 0}
+    fstats = {"runs": 0, "steps": 0, "dfs_configs": 0, "dfs_complete": 0, "random_runs": 0, "spec_failures": 0, "ends": {}}
+    if rp is None:
+        o, _, err = real(["dfs 0 1 %s %d %d 0" % (p_, mr, ms) for (p_, mr, ms) in VALUE_DFS])
+        ci = 0
+        for a in o:
+            if a.startswith("run "):
+                vruns.append(("dfs", VALUE_DFS[ci][0], a[4:]))
+            elif a.startswith("end "):
+                vstats["dfs_configs"] += 1
+                vstats["dfs_complete"] += 1 if a.endswith("true") else 0
+                ci += 1
+        if ci != len(VALUE_DFS):
+            raise RuntimeError("native harness died during the atomic.Value runs: %s" % err[-2000:])
+        lines, metas = [], []
+        for i in range(2500 if quick else 60000):
+            progs = gen_value_progs(rng)
+            lines.append("rand 0 1 %s %d 90 0" % (progs, rng.getrandbits(40) + 1))
+            metas.append(progs)
+        o, _, err = real(lines)
+        if len(o) != len(lines):
+            raise RuntimeError("native harness died during the random atomic.Value runs: %s" % err[-2000:])
+        vruns += [("random", m, a) for m, a in zip(metas, o)]
+        o, _, err = real(["fdfs %s 1 %s %d %d 0" % (s_, p_, mr, ms) for (s_, p_, mr, ms) in FINE_DFS])
+        ci = 0
+        for a in o:
+            if a.startswith("run "):
+                fruns.append(("dfs", FINE_DFS[ci][0], FINE_DFS[ci][1], a[4:]))
+            elif a.startswith("end "):
+                fstats["dfs_configs"] += 1
+                fstats["dfs_complete"] += 1 if a.endswith("true") else 0
+                ci += 1
+        if ci != len(FINE_DFS):
+            raise RuntimeError("native harness died during the fine-mode runs: %s" % err[-2000:])
+        lines, metas = [], []
+        for i in range(2500 if quick else 60000):
+            sems, nadr, progs = gen_prog_set(rng, False)
+            lines.append("frand %s %d %s %d 200 %d" % (sems, nadr, progs, rng.getrandbits(40) + 1, rng.choice([0, 0, 30])))
+            metas.append((sems, progs))
+        o, _, err = real(lines)
+        if len(o) != len(lines):
+            raise RuntimeError("native harness died during the random fine-mode runs: %s" % err[-2000:])
+        fruns += [("random", m[0], m[1], a) for m, a in zip(metas, o)]
+    elif "vprogs" in rp:
+        o, _, _ = real(["sched 0 1 %s %s" % (rp["vprogs"], rp["schedule"])])
+        vruns.append(("replay", rp["vprogs"], o[0]))
+    elif "fine" in rp:
+        o, _, _ = real(["fsched %s 1 %s %s" % (rp["fsems"], rp["fprogs"], rp["schedule"])])
+        fruns.append(("replay", rp["fsems"], rp["fprogs"], o[0]))
+    # fine-mode traces are judged against the specification right away (no model is involved)
+    for (origin, sems, progs, raw) in fruns:
+        sc, tr, end = raw.split(" # ")
+        steps = parse_trace(tr)
+        fstats["runs"] += 1
+        fstats["steps"] += len(steps) - 1
+        fstats["random_runs"] += origin == "random"
+        fstats["ends"][end.split("@")[0].split(":")[0]] = fstats["ends"].get(end.split("@")[0].split(":")[0], 0) + 1
+        for (key, what, detail) in judge([int(x) for x in sems.split(",")], parse_progs(progs), steps, end):
+            fstats["spec_failures"] += 1
+            if key is None:
+                stats["unclassified_failures"] = stats.get("unclassified_failures", 0) + 1
+                if stats["unclassified_failures"] > MAX_UNCLASSIFIED:
+                    continue
+            ctx.report(key or ("native-fine:%s:%s:%s" % (sems, progs, sc))[:300],
+                       what + "  [fine mode: a scheduling point also AFTER every atomic access]",
+                       {"fine": True, "fsems": sems, "fprogs": progs, "schedule": sc, "end": end, "detail": detail, "trace_tail": tr.split("|")[-6:]})
+    fruns = None
+
     # ---- (B-N') Go's own sync primitives layered on the copied semaphore (stretch)
     try:
         layered_stats = layered(ctx, quick, ticket_less, cas_retry, only=(rp or {}).get("request"))
@@ -536,7 +720,7 @@ def run(ctx, args):
     # ---- (1) Lean: build + obligations + axiom audit
     st = lean_check(ctx, ["LlgoVerif.Props.C11"], ["LlgoVerif/Props/C11.lean"],
                     extra_files=["LlgoVerif/Model/Sema.lean", "LlgoVerif/Lemmas/Sema.lean", "LlgoVerif/Spec/Atomics.lean",
-                                 GEN_REL, "Driver/C11.lean"],
+                                 "LlgoVerif/Model/AtomicValue.lean", "LlgoVerif/Lemmas/AtomicValue.lean", GEN_REL, "Driver/C11.lean"],
                     leanchecker=(ctx.tier == "thorough"))
     for name, s in st.items():
         if s != "ok":
@@ -621,6 +805,39 @@ def run(ctx, args):
     for i in range(0, len(runs), CH):
         process(runs[i:i + CH])
     runs = None
+
+    # atomic.Value: real value.go vs Model/AtomicValue.lean on the same concrete schedules + the specification
+    for i in range(0, len(vruns), CH):
+        batch = vruns[i:i + CH]
+        mreq = []
+        for (origin, progs, raw) in batch:
+            sc = raw.split(" # ")[0]
+            mreq.append("vrun %s %s" % (";".join(".".join(o.replace("0", "", 1) for o in th.split(".")) if th else "-"
+                                                 for th in progs.split(";")), sc))
+        mo = model(mreq)
+        for (origin, progs, raw), ml in zip(batch, mo):
+            sc, tr, end = raw.split(" # ")
+            steps = parse_trace(tr)
+            vstats["runs"] += 1
+            vstats["steps"] += len(steps) - 1
+            vstats["random_runs"] += origin == "random"
+            for st_ in steps:
+                for ev in st_.events:
+                    vstats["loads_nil"] += ev.startswith("G") and ev.endswith("=n")
+                    vstats["loads_value"] += ev.startswith("G") and not ev.endswith("=n")
+                    vstats["panics_inconsistent_type"] += ev.startswith("!")
+            if len(set(s_.tid for s_ in steps[1:])) >= 2:
+                distinct.add(("value", progs, sc))
+            if ml != tr.replace(";S0/0:L0/0:T", ";T") + " # " + end:
+                mismatches.append((origin, "value", 1, progs, sc, raw[-400:], ml[-400:]))
+            for (key, what, detail) in judge_value(progs, steps, end):
+                vstats["spec_failures"] += 1
+                stats["unclassified_failures"] = stats.get("unclassified_failures", 0) + 1
+                if stats["unclassified_failures"] > MAX_UNCLASSIFIED:
+                    continue
+                ctx.report(("value:%s:%s" % (progs, sc))[:300], what + "  [verbatim value.go under the scheduler]",
+                           {"vprogs": progs, "schedule": sc, "end": end, "detail": detail, "trace_tail": tr.split("|")[-6:]})
+    vruns = None
     if not quick and not args.replay:
         # thorough tier: more exhaustive configurations and random runs, streamed (real code -> model -> judge per batch)
         for (s_, p_, mr, ms, b_) in DFS_THOROUGH:
@@ -646,7 +863,7 @@ def run(ctx, args):
     # ---- (B-E) results of the compiled stress programs
     fut.result()
     pool.shutdown()
-    want = e2e_expected(N, K)
+    want = e2e_expected(N, K, S)
     e2e_stats = {"N": N, "K": K, "S": S, "timings_s": res["t"], "levels": {}}
     n_e2e = 0
     e2e_failed = False
@@ -711,6 +928,8 @@ def run(ctx, args):
     ctx.coverage["code_variant"] = {"ticketLess": ticket_less, "oneBroadcast": one_broadcast, "casRetry": cas_retry}
     ctx.coverage["e2e"] = e2e_stats
     ctx.coverage["layered_sync"] = layered_stats
+    ctx.coverage["atomic_value"] = vstats
+    ctx.coverage["fine_mode"] = fstats
     ctx.coverage["atomics_table"] = {"rows": len(entries), "rows_of_expected_shape": len(entries) - len(bad_rows), "problems": problems,
                                      "entry_points_declared_in_lib_sync_atomic": len(declared)}
     ctx.coverage["trusted_base"] += [
@@ -728,7 +947,7 @@ def run(ctx, args):
     ctx.assumptions += ["LLVM 14 code generation implements the LangRef semantics of seq_cst atomics on x86-64; only amd64 executes",
                         "Go's sync package itself cannot be compiled by llgo in the sandbox: its sources are exercised natively on top of the copied semaphore"]
     return ctx.finish("proof", {
-        "evaluations": stats["steps"] + n_e2e, "distinct_nontrivial": len(distinct),
+        "evaluations": stats["steps"] + vstats["steps"] + fstats["steps"] + n_e2e, "distinct_nontrivial": len(distinct),
         "rule": "evaluation = one scheduled step of the real sema_llgo.go compared with the model (+ one counter of a compiled stress program); "
                 "distinct non-trivial = distinct (initial counts, programs, schedule) triples in which at least two threads take steps",
         "input_distribution": stats, "correspondence_mismatches": len(mismatches),
